@@ -1197,6 +1197,8 @@ def one_sided_thresholds(chk, prog, funcs_by_unit, R, rule):
                     defs.setdefault(strip(kids(n)[0])['referencedDecl'].get('name'), []).append(kids(n)[1])
                 if n.get('kind') == 'VarDecl' and kids(n):
                     defs.setdefault(n.get('name'), []).append(kids(n)[-1])
+                if n.get('kind') == 'CompoundAssignOperator' and n.get('opcode') in ('+=', '-=') and strip(kids(n)[0]).get('kind') == 'DeclRefExpr':
+                    defs.setdefault(strip(kids(n)[0])['referencedDecl'].get('name'), []).append(kids(n)[1])
             for n in walk(f.body):
                 if id(n) in inapprox or not (n.get('kind') == 'BinaryOperator' and n.get('opcode') in ('<', '<=', '>', '>=')):
                     continue
@@ -1228,8 +1230,31 @@ def one_sided_thresholds(chk, prog, funcs_by_unit, R, rule):
                         ds = defs.get(e['referencedDecl'].get('name'), [])
                         return bool(ds) and all(dimensionless(d, depth + 1) for d in ds)
                     return False
-                if dimensionless(other):
-                    chk.instance(R, desc + ': the tested value is a ratio / convergence measure (possibly dimensionless): not decided', 'undecided')
+                def data_scaled(e, depth=0):
+                    """visibly a quantity in the units of the data: a cell of a container, a dot product / norm / trace, or a local computed from those"""
+                    e = strip(e)
+                    while e.get('kind') == 'ParenExpr':
+                        e = strip(kids(e)[0])
+                    k_ = e.get('kind')
+                    if k_ == 'ArraySubscriptExpr':
+                        return True
+                    if k_ == 'CallExpr':
+                        cn_ = callee_name(e)
+                        if cn_ in ('DVectorDVectorDotProd', 'DvectorModule', 'MatrixTrace', 'Matrixnorm', 'getMatrixValue', 'getDVectorValue', 'getTensorValue'):
+                            return True
+                        if cn_ in ('fabs', 'sqrt', 'square') and call_args(e):
+                            return data_scaled(call_args(e)[0], depth)
+                        return False
+                    if k_ == 'UnaryOperator' and e.get('opcode') in ('-', '+', '*'):
+                        return data_scaled(kids(e)[0], depth)
+                    if k_ == 'BinaryOperator' and e.get('opcode') in ('+', '-', '*'):
+                        return data_scaled(kids(e)[0], depth) or data_scaled(kids(e)[1], depth)
+                    if k_ == 'DeclRefExpr' and depth < 2:
+                        ds = defs.get(e['referencedDecl'].get('name'), [])
+                        return any(data_scaled(d, depth + 1) for d in ds)
+                    return False
+                if dimensionless(other) or not data_scaled(other):
+                    chk.instance(R, desc + ': the tested value is a ratio / convergence measure or of unknown origin (possibly dimensionless): not decided', 'undecided')
                     continue
                 chk.instance(R, desc + ': one-sided absolute threshold, not a confirmed site', 'refuted')
                 chk.violation(Finding(rule, rel(f.file), nm, 'threshold:%s' % txt[:40], f.unit.where(n),
